@@ -126,6 +126,16 @@ def main(tier, seed, only=None):
                     data[idx] = x0 if idx[0] == 0 else rng.choice([-1.5, -0.75, 0.5, 1.0, 1.25, 2.0])
                 rep.count('terminating series', 'hyperu(%d, %s, .) at %s' % (a, b, x0))
                 cases.append(dict(fn='hyperu', prm=dict(a=a, b=b), D=D, P=P, shape=[2], pattern='dense', route=rng.choice(['special', 'classmethod']), data=data.tolist(), layout='C'))
+    if only is None or 'gammaln' in names:
+        # gammaln (= log|Gamma|) and psi on the NEGATIVE axis between the poles: real analytic there, the same recurrences
+        for fname in ('gammaln', 'psi'):
+            for x0 in (-0.5, -1.5, -2.25, -0.25, -3.5):
+                D = rng.randint(2, 5); P = rng.randint(1, 2)
+                data = numpy.zeros((D, P, 2))
+                for idx in numpy.ndindex(*data.shape):
+                    data[idx] = x0 if idx[0] == 0 else rng.choice([-0.125, 0.0625, 0.125, -0.0625, 0.25])
+                rep.count('negative axis', '%s at %s' % (fname, x0))
+                cases.append(dict(fn=fname, prm={}, D=D, P=P, shape=[2], pattern='dense', route=rng.choice(['special', 'classmethod']), data=data.tolist(), layout='C'))
     run_and_judge(rep, algopy, cases)
     return rep.finish()
 
